@@ -23,6 +23,9 @@ claimed = {
  "C19": dict(text="Lean theorems (PV.Props.C19): p_uthread_sleep, for every number of handled signals, every remaining-time value and every ambient errno, returns 0 having re-issued the native sleep with exactly the remaining time, the slept intervals add up to the request, genuine errors are reported at once; the interruption test (return value vs errno) is a translator fact. Tied by a scripted clock_nanosleep (exhaustive for k<=6 interruptions) and real SIGALRM storms. The semaphore / shared-memory / socket parts are the *_eintr_transparent theorems and EINTR-injection campaigns of C06, C07 and C09.",
              note=TB + "POSIX clock_nanosleep contract (error as return value, errno untouched, remaining time written). Real-signal runs check only a lower bound on elapsed time. Until C06/C07/C09 are registered this check decides the sleep part only.",
              technique="Lean 4 proof over scripted syscall results (induction on the interruption script) + translator + scripted/real-signal differential", ref="§3 C19"),
+ "C17": dict(text="Lean theorems (PV.Props.C17, 18 obligations): the byte-exact model of new_from_native / to_native equals an explicit layout spec for every buffer and length; native round trips in both directions for all addresses, ports, flow infos and scope ids; port byte order; size/family; any/loopback classification (mask proved by bit extensionality); too-small buffers fail without any write; no out-of-bounds read or write for every length; IPv4 text round trip for all 2^32 addresses with concrete ntop4/pton4; IPv6 text relative to the platform contract; creation-from-text dispatch and success conditions. Tied by translator facts (struct sizes/offsets from a compiled probe, config macros, loopback mask, statement order) and a differential run with exact-size heap buffers under ASan and a platform column from the harness's own inet_pton/inet_ntop.",
+             note=TB + "inet_pton/inet_ntop/getaddrinfo are parameters of the model (platform contract pton6(ntop6 a) = a is a hypothesis of the IPv6 text theorem).",
+             technique="Lean 4 proof (byte-level model = layout spec, round trips, bounds) + translator + differential correspondence under ASan", ref="§3 C17"),
 }
 checks = []
 for pid, c in sorted(claimed.items()):
